@@ -22,12 +22,14 @@ def template(name, k1, k2, k3):
         return [{k1: {k2: {k3: {"leaf": 1}}}, "tail": [{"leaf2": "1.5"}]}]
     if name == "optional_pseudo":
         return [{k1: "12", k2: [{"n": "1.5", k3: "true"}]}, {k2: []}]
+    if name == "odd_string_values":       # string values (future Literal members) with control characters, quotes, backslashes
+        return [{k1: "line\r\nend", k2: 'q"uote\\', k3: "tab\tand\x0bvt"}, {k1: "plain", k2: "\u2028sep", k3: "nul\x00byte"}]
     if name == "recursive":
         return [{k1: 1, "next": {k1: 2, "next": {k1: 3, "next": None, k2: "t"}, k2: "u"}, k2: "v"}]
     raise ValueError(name)
 
 
-TEMPLATES_QUICK = ["flat_scalars", "nested_object", "list_of_objects", "two_similar_children"]
+TEMPLATES_QUICK = ["flat_scalars", "nested_object", "list_of_objects", "two_similar_children", "odd_string_values"]
 TEMPLATES_FULL = TEMPLATES_QUICK + ["deep_chain", "optional_pseudo", "recursive"]
 
 
